@@ -156,12 +156,14 @@ fn wild_arg(rng: &mut Rng, id: String, used: &mut Used, o: &WildOpts, pos_index:
                 a.long = used.long(rng);
             }
         }
-        if a.long.is_some() && rng.chance(1, 4) {
+        // (likewise a long alias does not need a long)
+        if (a.long.is_some() && rng.chance(1, 4)) || (a.long.is_none() && rng.chance(1, 12)) {
             if let Some(l) = used.long(rng) {
                 a.aliases.push((l, rng.coin()));
             }
         }
-        if a.short.is_some() && rng.chance(1, 6) {
+        // (a short alias does not need a short: `--long` with `visible_short_alias('x')` is legal)
+        if (a.short.is_some() && rng.chance(1, 6)) || (a.short.is_none() && rng.chance(1, 12)) {
             if let Some(c) = used.short(rng) {
                 a.short_aliases.push((c, rng.coin()));
             }
